@@ -431,6 +431,7 @@ func runErrorsAs(fr *Frame, in ssa.Instruction, c *ssa.CallCommon, ci calleeInfo
 		pred := ex.D.implementsPred(tt)
 		ex.declFun("chainImpl_"+pred, "(Iface) Bool")
 		ex.assume(fmt.Sprintf("(= %s (chainImpl_%s %s))", res, pred, args[0].T), fr.curReach)
+		ex.assume(fmt.Sprintf("(not (chainImpl_%s (mkI 0 0)))", pred), fr.curReach) // errors.As(nil, …) is false
 		nv := ex.fresh("astarget", SIface)
 		ex.assume(implies(res, fmt.Sprintf("(%s (itag %s))", pred, nv)), fr.curReach)
 		old := ex.load(fr.curMem, tt, target.T)
